@@ -122,6 +122,13 @@ def gen_cases(tier, seed):
         for side in ("S", "D"):
             for r in range(5):
                 cases.append({"cfg": cfg, "side": side, "round": r, "wrong": False, "drop": None})
+    # EOF (cancel) PDUs as another implementation may send them: every condition code, with and without a fault location TLV
+    for (mode, closure), cond, tlv in itertools.product((("ack", False), ("unack", True), ("unack", False)),
+                                                        ("CANCEL_REQUEST_RECEIVED", "POSITIVE_ACK_LIMIT_REACHED", "NAK_LIMIT_REACHED", "FILE_CHECKSUM_FAILURE", "FILE_SIZE_ERROR",
+                                                         "FILESTORE_REJECTION", "INACTIVITY_DETECTED", "CHECK_LIMIT_REACHED", "KEEP_ALIVE_LIMIT_REACHED", "SUSPEND_REQUEST_RECEIVED"),
+                                                        (None, 1, 2, 7)):
+        for md, nfd in ((True, 0), (True, 2), (False, 1)):
+            cases.append({"t": "scripted_eof_cancel", "mode": mode, "closure": closure, "cond": cond, "tlv": tlv, "md": md, "nfd": nfd, "disp": bool((nfd + (tlv or 0)) % 2)})
     rng = random.Random(99 + seed)
     n = 1500 if tier == "quick" else 20000
     for i in range(n):
@@ -142,7 +149,57 @@ def gen_cases(tier, seed):
     return cases
 
 
+def run_scripted_eof_cancel(case):
+    """The harness plays the sender: Metadata and file data as told, then an EOF (cancel) with any condition code, with or without a fault
+    location TLV (naming the sender, the receiver or a third entity).  The transaction finishes with the EOF's condition and the *sender*
+    as fault location (indication and, with closure or in acknowledged mode, Finished PDU)."""
+    from .. import pdugen, prep
+
+    cfg = {"mode": case["mode"], "closure": case["closure"], "size": 12, "seg": 4, "fs": "mem", "disp": case["disp"], "ack_ivl": 50.0, "nak_ivl": 50.0}
+    viol, obs = [], {}
+    with World(cfg) as w:
+        D = w.D
+        tc = prep.tx_conf(w)
+        steps = []
+        if case["md"]:
+            steps.append(pdugen.raw("MD", tc, {"size": 12, "cks": "crc32", "closure": case["closure"], "src_name": w.src_path.as_posix(), "dst_name": w.dst_req_path.as_posix()}))
+        for i in range(case["nfd"]):
+            steps.append(pdugen.raw("FD", tc, {"offset": 4 * i, "data": w.data[4 * i : 4 * i + 4]}))
+        sent = 4 * case["nfd"]
+        f = {"size": sent, "cksum": models.checksum("crc32", w.data[:sent]), "cond": case["cond"]}
+        if case["tlv"] is not None:
+            f["fault_loc"] = bytes([0, case["tlv"]])
+        steps.append(pdugen.raw("EOF", tc, f))
+        try:
+            for raw in steps:
+                e = prep.feed(D, raw)
+                if e is not None:
+                    obs["scripted_pdu_refused_" + type(e).__name__] = 1
+            for _ in range(3):
+                D.sm()
+        except Exception as e:  # noqa: BLE001
+            viol.append({"clause": "internal-exception", "etype": type(e).__name__, "msg": str(e)[:150]})
+        fins = [e["fin"] for e in w.log.of("ind_finished", "D")]
+        finp = [e["d"] for e in w.log.of("tx", "D") if e["d"].get("kind") == "FIN"]
+        if not case["md"] and case["mode"] == "unack":
+            obs["scripted_eof_cancel_without_transaction"] = 1  # nothing to finish: the first PDU of an unacknowledged transaction must be Metadata
+        elif not viol:
+            if len(fins) != 1 or fins[0][0] != case["cond"] or fins[0][3] != 1:
+                viol.append({"clause": "eof-cancel-completion-condition-or-fault-location", "eof": case["cond"], "eof_fault_location_tlv": case["tlv"], "fins": fins})
+            wants_pdu = case["mode"] == "ack" or case["closure"]
+            if wants_pdu and (len(finp) < 1 or any("error" not in d and (d.get("cond") != case["cond"] or d.get("fault_loc") != 1) for d in finp)):
+                viol.append({"clause": "eof-cancel-finished-pdu", "eof": case["cond"], "eof_fault_location_tlv": case["tlv"], "fin_pdus": [wire.short(d) for d in finp]})
+            obs["scripted_eof_cancels_judged"] = 1
+            obs["scripted_eof_cancels_with_foreign_fault_location"] = int(case["tlv"] not in (None, 1))
+        for v in viol:
+            v["case"] = case
+            v["trace"] = trace_summary(w, None, 30)
+    return {"viol": viol, "sig": case, "obs": obs, "sample": None}
+
+
 def run_case(case):
+    if case.get("t") == "scripted_eof_cancel":
+        return run_scripted_eof_cancel(case)
     cfg = case["cfg"]
     viol = []
     obs = {}
@@ -369,4 +426,5 @@ def exhaustive(tier):
 
 
 REQUIRED = {"cancels_with_metadata_never_arriving": 20, "refused_put_requests_before_cancel": 50, "sender_cancels": 50, "receiver_cancels": 50, "eof_cancel_checked": 30, "eof_cancel_mid_file": 5, "eof_cancel_completion_checked": 20,
-            "receiver_cancel_finished_pdu_checked": 20, "file_deletions_expected": 5, "file_presence_judged": 20, "judged_on_reused_handlers": 100}
+            "receiver_cancel_finished_pdu_checked": 20, "file_deletions_expected": 5, "file_presence_judged": 20, "judged_on_reused_handlers": 100,
+            "scripted_eof_cancels_judged": 200, "scripted_eof_cancels_with_foreign_fault_location": 100}
